@@ -187,7 +187,8 @@ def gen_gradle(rng):
             exp.append({"GroupId": g, "ArtifactId": a, "Scope": conf})
         for t in texts or []:
             exp.append({"GroupId": t.split(":")[0], "ArtifactId": t.split(":")[1], "Scope": conf})
-    lines.append("dependencies {\n" + "\n".join(body) + "\n}")
+    # the layout of the block header is free
+    lines.append(rng.choice(["dependencies {", "dependencies {", "dependencies{", "dependencies  {", "dependencies\t{"]) + "\n" + "\n".join(body) + "\n}")
     for blk in rng.sample(["test {\n    useJUnitPlatform()\n}", "sourceCompatibility = '1.8'"], rng.choice([0, 1])):
         lines.append(blk)
     return "\n\n".join(lines) + "\n", stmts, exp
